@@ -5,7 +5,7 @@
    should_process, readable with a recognised language), whose faithfulness is established by the
    correspondence run of tools/props/c01.py against an independent re-computation from the project tree. *)
 From Coq Require Import NArith List Bool.
-From SG Require Import Check.Results Check.BMap Check.ExitCode Check.Ratchet Check.Baseline Check.Pipeline Check.Proofs_C01.
+From SG Require Import Check.Results Check.BMap Check.ExitCode Check.Ratchet Check.Baseline Check.Pipeline Check.Proofs_C01 Check.Compose.
 Import ListNotations.
 Open Scope N_scope.
 
@@ -73,6 +73,41 @@ Theorem C01_exit2_only_errors : forall (ce : bool) (fl : flags) (fs : list ffact
   o_exit (check_run ce fl fs sres dirs disk) = 2 <-> ce = true \/ load_for_run fl disk = None.
 Proof. exact exit2_only_errors. Qed.
 Print Assumptions C01_exit2_only_errors.
+
+(* ---- composition with the threshold model (C05): the per-file facts are computed, not assumed ----
+   [check_command cfg a fl ins ...] builds the checker `check` builds from the configuration and the CLI
+   overrides (Threshold.Model.check_checker), rejects what the post-override validation rejects, and derives
+   every file's scope decision, effective count, limit and warn point from should_process /
+   process_for_check / warn_limit_for on the real match vectors *)
+Theorem C01_composed_statuses : forall cfg a fl ins sres dirs disk l,
+  config_rejected cfg a = false ->
+  load_for_run fl disk = Some l ->
+  let ck := T.check_checker cfg a in
+  let out := check_command cfg a fl ins sres dirs disk in
+  forall f s, In f ins -> fi_scanned f = true -> fi_stats f = Some s ->
+    T.should_process ck (fi_ev f) (fi_mv f) (fi_ext f) = true ->
+    exists r, In r (o_results out) /\ r_path r = fi_path f /\ r_kind r = Content /\
+      r_status r = adjust l (fi_path f) (conv (T.res_status (T.process_for_check ck (fi_mv f) s))) /\
+      r_code r = T.sloc (T.res_stats (T.process_for_check ck (fi_mv f) s)) /\
+      r_limit r = T.res_limit (T.process_for_check ck (fi_mv f) s).
+Proof. exact composed_statuses. Qed.
+Print Assumptions C01_composed_statuses.
+
+Theorem C01_composed_config_error : forall cfg a fl ins sres dirs disk,
+  config_rejected cfg a = true ->
+  o_exit (check_command cfg a fl ins sres dirs disk) = 2 /\ o_results (check_command cfg a fl ins sres dirs disk) = [].
+Proof. exact composed_config_error. Qed.
+Print Assumptions C01_composed_config_error.
+
+Theorem C01_composed_nothing_else_reported : forall cfg a fl ins sres dirs disk l,
+  config_rejected cfg a = false -> load_for_run fl disk = Some l ->
+  let ck := T.check_checker cfg a in
+  forall r, In r (o_results (check_command cfg a fl ins sres dirs disk)) -> r_kind r = Content ->
+    (forall s, In s sres -> r_kind s <> Content) ->
+    exists f, In f ins /\ r_path r = fi_path f /\ fi_scanned f = true /\
+              T.should_process ck (fi_ev f) (fi_mv f) (fi_ext f) = true /\ fi_stats f <> None.
+Proof. exact composed_unselected_silent. Qed.
+Print Assumptions C01_composed_nothing_else_reported.
 
 (* verdict trichotomy used by spec_status *)
 Theorem C01_verdict_failed_iff : forall c lim w, verdict c lim w = Failed <-> lim < c.
